@@ -23,7 +23,7 @@ NOTE = ["the two regular expressions enter the model as predicates: re.fullmatch
         "cbor2 load/dump modelled as dec/enc (identity on the canonical envelopes the tool writes)"]
 
 DEP_RES = [None, r"#dep.*", r"nomatch", r".*", r"#dep1_0|#dep2_0", r"#dep\d{1,2}_\d{1,3}", r"#dep[0-9]{1,},?.*"]
-CONFUSABLE = [["#app_bin", "#app.bin"], ["#aab", "#a+b"], ["#fw7", "#fw\\d"], ["#ab", "#a?b", "#a*b"], ["#x", "#x|#y", "#y"],
+CONFUSABLE = [["3", "2", "#p3"], ["16", "2024", "+3"], ["1_0", " 3", "0x10"], ["#app_bin", "#app.bin"], ["#aab", "#a+b"], ["#fw7", "#fw\\d"], ["#ab", "#a?b", "#a*b"], ["#x", "#x|#y", "#y"],
               ["file:///C:\\images\\update.bin", "#other"], ["#x[1", "#x1"], ["#(", "#)"], ["#a**", "#a"], ["#p$", "#p"], ["#^q", "#q"],
               # for the patterns ALTERNATION below: names that merely begin or end with one alternative
               ["#app0", "#app0_recovery", "boot#file1", "#file1"], ["#a,b", "#a", "b", "#app7"], ["#file12", "#file1234", "#app123"]]
